@@ -161,27 +161,37 @@ class Ref:
             return polyline_project(self.pts, self.cum, p, lo, hi)
         if lo is None:
             lo, hi = self.lo, self.hi
+        lo, hi = max(lo, self.lo), min(hi, self.hi)
         if k == "line":
             v = self.p2 - self.p1
             t = float(np.dot(p - self.p1, v) / np.dot(v, v))
             t = min(max(t, lo), hi)
             return t, float(np.linalg.norm(self.p1 + v * t - p))
         sel = np.nonzero((self.ts >= lo) & (self.ts <= hi))[0]
-        cand = [lo, hi]
+        fun = lambda t: float(np.linalg.norm(self.point(t) - p))  # noqa: E731
+        best_t, best_d = lo, fun(lo)
+        dh = fun(hi)
+        if dh < best_d:
+            best_t, best_d = hi, dh
+        brackets = []
         if len(sel):
             d = np.linalg.norm(self.dense[sel] - p, axis=1)
-            i = int(sel[int(np.argmin(d))])
-            a, b = max(self.ts[max(i - 1, 0)], lo), min(self.ts[min(i + 1, len(self.ts) - 1)], hi)
-            cand.append(float(self.ts[i]))
+            # every sampled local minimum that could hide the true one (a curve that passes close to itself has several)
+            gap = float(np.max(np.linalg.norm(self.dense[1:] - self.dense[:-1], axis=1)))
+            for j in np.nonzero(d <= d.min() + 2 * gap)[0]:
+                if (j == 0 or d[j - 1] >= d[j]) and (j == len(d) - 1 or d[j + 1] >= d[j]):
+                    i = int(sel[j])
+                    brackets.append((max(self.ts[max(i - 1, 0)], lo), min(self.ts[min(i + 1, len(self.ts) - 1)], hi), float(self.ts[i]), float(d[j])))
         else:
-            a, b = lo, hi
-        fun = lambda t: float(np.linalg.norm(self.point(t) - p))  # noqa: E731
-        t, dist = _golden(fun, a, b)
-        for c in cand:
-            dc = fun(c)
-            if dc < dist:
-                t, dist = c, dc
-        return float(t), float(dist)
+            brackets.append((lo, hi, lo, best_d))
+        for a, b, tc, dc in brackets[:6]:
+            if dc < best_d:
+                best_t, best_d = tc, dc
+            if b > a:
+                t, dist = _golden(fun, a, b)
+                if dist < best_d:
+                    best_t, best_d = t, dist
+        return float(best_t), float(best_d)
 
     def coord(self, t, p=None):
         """the monotone coordinate used by project() of the curve point with parameter t. For the linear-interpolated
